@@ -54,7 +54,7 @@ fn sym_msgs(sym: u8, rwnd: u32) -> Vec<RawMsg> {
     }
 }
 
-const BY_FRAMES: u32 = 6;
+const BY_FRAMES: u32 = 2;
 
 pub fn build(c: &C10Case) -> Case {
     let mut o0 = OptsSpec { rwnd: c.rwnd, thr: 1, stream_buf: 16, dgram_buf: 64, bind_buf: if c.binds_enabled { 16 } else { 0 }, retries: 1 };
@@ -354,7 +354,7 @@ pub fn run_invalid(c: &InvalidCase) -> Outcome {
     if vf_ref::frame::decode(&c.bytes).is_ok() {
         return Outcome::pass(false, vec!["actually-valid"]);
     }
-    let mut case = build(&C10Case { seq: vec![], rwnd: 6, binds_enabled: true, schedule: c.schedule.clone() });
+    let mut case = build(&C10Case { seq: vec![], rwnd: 3, binds_enabled: true, schedule: c.schedule.clone() });
     // replace the phase-2 traffic by the invalid message
     case.events = vec![RawEvent { when: Trigger::Quiescent, what: What::Wake(1) }, RawEvent { when: Trigger::AfterEvent(0), what: What::Inject { from: 1, msg: RawMsg::Bytes(c.bytes.clone()) } }];
     if c.silent_peer {
@@ -402,7 +402,7 @@ pub fn c10(ctx: &Ctx, rep: &mut Report) {
         500,
         |i| {
             let binds_enabled = i % 2 == 0;
-            let rwnd = if (i / 2) % 2 == 0 { 6 } else { 7 };
+            let rwnd = if (i / 2) % 2 == 0 { 2 } else { 3 };
             let mut r = (i / 4) % per;
             let mut len = 1;
             loop {
@@ -428,7 +428,7 @@ pub fn c10(ctx: &Ctx, rep: &mut Report) {
         t.pick(150_000, 3_000_000),
         300,
         || {
-            (prop::collection::vec(0u8..NSYM as u8, 1..=30), prop::sample::select(vec![6u32, 8, 12]), any::<bool>(), schedule(300)).prop_map(|(seq, rwnd, binds_enabled, schedule)| C10Case { seq, rwnd, binds_enabled, schedule })
+            (prop::collection::vec(0u8..NSYM as u8, 1..=30), prop::sample::select(vec![2u32, 3, 5, 8, 12]), any::<bool>(), schedule(300)).prop_map(|(seq, rwnd, binds_enabled, schedule)| C10Case { seq, rwnd, binds_enabled, schedule })
         },
         run_c10,
     );
